@@ -3,6 +3,7 @@ package rules
 import (
 	"regexp"
 	"sort"
+	"strconv"
 	"strings"
 
 	"golang.org/x/tools/go/ssa"
@@ -90,6 +91,7 @@ var limitRe = regexp.MustCompile(`(?i)\bLIMIT\s+(\S+)`)
 
 func c07(c *Ctx) {
 	defer c07reads(c)
+	defer c07deletedIsMarked(c)
 	defer c.uncheckedDeleteOnlyFresh("R07.2")
 	P, R := c.P, c.R
 	R.Explain("R07.1", "ordering: in every function that creates message rows (tx.CreateMessages / tx.CreateMessageAndAddToMailbox) each success return is also preceded by the write of the message literal to the store (Set/SetUnchecked, directly or inside a worker closure) — a listed message always has its bytes; the store write happens inside the transaction closure or before it, never after the commit wrapper returned.")
@@ -349,4 +351,58 @@ func c07reads(c *Ctx) {
 		return "", false
 	}, "the transaction continues as if the row did not exist and commits a partial effect")
 	R.Min("R07.6", "reads through a write transaction", k, 40)
+}
+
+// c07deletedIsMarked (R07.7): a MessageDeleted update marks the message for the clean-up whenever the message is known.
+func c07deletedIsMarked(c *Ctx) {
+	P, R := c.P, c.R
+	R.Explain("R07.7", "deleted messages are marked: in the transaction of user.applyMessageDeleted every nil-error return passes a call of db.Transaction.MarkMessageAsDeleted* (by internal or remote id), except along the true edge of db.IsErrNotFound (the message is unknown).  The start-up and deletion-pool clean-up only erase marked messages; a known message that is removed from its mailboxes without the mark stays in the index and the store for ever.")
+	f := c.fn("R07.7", "internal/backend.(*user).applyMessageDeleted")
+	if f == nil {
+		return
+	}
+	n := 0
+	for _, g := range engine.WithClosures(f) {
+		isTxClosure := false
+		for _, p := range g.Params {
+			if engine.IsNamed(p.Type(), "db", "Transaction") {
+				isTxClosure = true
+			}
+		}
+		if !isTxClosure {
+			continue
+		}
+		cut := map[ssa.Instruction]bool{}
+		for _, cs := range engine.Calls(g) {
+			cc := cs.Common()
+			if cc.IsInvoke() && strings.HasPrefix(cc.Method.Name(), "MarkMessageAsDeleted") && cs.Instr.Parent() == g {
+				cut[cs.Instr] = true
+			}
+		}
+		skip := map[engine.Edge]bool{}
+		for _, b := range g.Blocks {
+			iff := engine.IfOf(b)
+			if iff == nil {
+				continue
+			}
+			cond, neg := engine.StripNot(iff.Cond)
+			if call, ok := cond.(*ssa.Call); ok && call.Call.StaticCallee() != nil && engine.BaseName(call.Call.StaticCallee()) == "IsErrNotFound" {
+				ix := 0
+				if neg {
+					ix = 1
+				}
+				skip[engine.Edge{From: b, Succ: ix}] = true
+			}
+		}
+		for _, ret := range engine.Returns(g) {
+			lr := engine.LastResult(ret)
+			if lr == nil || !engine.IsNilConst(lr) {
+				continue
+			}
+			n++
+			bad := len(cut) == 0 || engine.ReachesAvoiding(g, ret, cut, skip)
+			R.Check(!bad, "R07.7", c.name(g)+"|success return#"+strconv.Itoa(n), P.Pos(ret.Pos()), "passes MarkMessageAsDeleted* (or the message is unknown)", "applyMessageDeleted can succeed for a known message without marking it as deleted: the message is never erased from the index and the store")
+		}
+	}
+	R.Min("R07.7", "success returns of the MessageDeleted transaction", n, 1)
 }
